@@ -251,7 +251,11 @@ def dist_strategy():
         mk, st.just(fk[0]), st.just(fk[1]), st.integers(2, 4),
         st.lists(st.lists(st.integers(0, 3), min_size=1, max_size=3), min_size=1, max_size=5),
         st.lists(st.sampled_from([-2, -1, -0.5, 0.5, 1, 2, 1.5, -1.5]), min_size=1, max_size=5),
-        st.lists(gen.pick((1.0, 2), (0.5, 2), (2.0, 2), (4.0, 1), (0.0, 3)), min_size=1, max_size=4),
+        st.one_of(
+            st.lists(gen.pick((1.0, 2), (0.5, 2), (2.0, 2), (4.0, 1), (0.0, 3)), min_size=1, max_size=4),
+            st.lists(gen.pick((1.0, 2), (0.5, 2), (2.0, 2), (4.0, 1), (0.0, 3)), min_size=1, max_size=4),
+            # quench to a local minimum, one more zero-temperature sweep in which nothing can flip, then re-heating
+            st.lists(st.sampled_from([1.0, 0.5, 2.0]), min_size=1, max_size=2).map(lambda hot: [0.0, 0.0] + hot)),
         st.lists(st.integers(0, 1), min_size=1, max_size=4), st.booleans(),
         st.integers(0, 2 ** 31 - 1)))
 
